@@ -401,4 +401,342 @@ theorem wager_good {s s' : State} (hI : BetIdx s) (nb : Bet) (hid : nb.id = s.be
     have := hI.lens
     omega
 
+-- ---------------------------------------------------------------------------------------------
+-- frames: everything but the wager and the bet settlement leaves the bet stores alone
+
+theorem bankSend_same {s s' : State} {a b : Nat} {x : Int} (h : bankSend s a b x = some s') : SameBets s s' := by
+  obtain ⟨_, _, rfl⟩ := bankSend_shape h
+  exact ⟨rfl, rfl, rfl, rfl, rfl⟩
+
+theorem grantStep_same {s s' : State} {d : Bool} {g e k : Nat} {x : Int} (h : grantStep s d g e k x = some s') :
+    SameBets s s' := by
+  obtain ⟨_, rfl⟩ := grantStep_shape h
+  exact ⟨rfl, rfl, rfl, rfl, rfl⟩
+
+theorem marketAddO_same {s s' : State} {c : Nat} {tk : Tk} {u st en : Nat} {o : List Nat} {stt : Nat}
+    (h : marketAddO s c tk u st en o stt = some s') : SameBets s s' := by
+  unfold marketAddO at h
+  simp only [bind, Option.bind_eq_some_iff, pure, Option.some.injEq] at h
+  obtain ⟨_, _, _, _, _, _, _, _, _, _, _, _, _, _, rfl⟩ := h
+  exact ⟨rfl, rfl, rfl, rfl, rfl⟩
+
+theorem marketUpdateO_same {s s' : State} {tk : Tk} {u st en stt : Nat}
+    (h : marketUpdateO s tk u st en stt = some s') : SameBets s s' := by
+  unfold marketUpdateO at h
+  simp only [bind, Option.bind_eq_some_iff, pure, Option.some.injEq] at h
+  obtain ⟨_, _, _, _, _, _, _, _, _, _, rfl⟩ := h
+  exact ⟨rfl, rfl, rfl, rfl, rfl⟩
+
+theorem marketResolveO_same {s s' : State} {tk : Tk} {u ts stt : Nat} {w : List Nat}
+    (h : marketResolveO s tk u ts stt w = some s') : SameBets s s' := by
+  unfold marketResolveO at h
+  simp only [bind, Option.bind_eq_some_iff, pure, Option.some.injEq] at h
+  obtain ⟨_, _, _, _, _, _, _, _, _, _, rfl⟩ := h
+  exact ⟨rfl, rfl, rfl, rfl, rfl⟩
+
+theorem houseDepositO_same {s : State} {r : State × Nat} {c : Nat} {tk : Tk} {m : Nat} {a : Int} {pd : Nat}
+    (h : houseDepositO s c tk m a pd = some r) : SameBets s r.1 := by
+  unfold houseDepositO at h
+  simp only [bind, Option.bind_eq_some_iff, pure, Option.some.injEq] at h
+  obtain ⟨_, _, _, _, _, _, s1, h1, _, _, mk, _, b, _, _, _, _, _, _, _, _, _, s2, h2, s3, h3, rfl⟩ := h
+  obtain ⟨_, rfl⟩ := grantStep_shape h1
+  obtain ⟨_, _, rfl⟩ := bankSend_shape h2
+  obtain ⟨_, _, rfl⟩ := bankSend_shape h3
+  exact ⟨rfl, rfl, rfl, rfl, rfl⟩
+
+theorem houseWithdrawO_same {s s' : State} {c : Nat} {tk : Tk} {m i md : Nat} {a : Int} {pd : Nat}
+    (h : houseWithdrawO s c tk m i md a pd = some s') : SameBets s s' := by
+  unfold houseWithdrawO at h
+  simp only [bind, Option.bind_eq_some_iff, pure, Option.some.injEq] at h
+  obtain ⟨_, _, _, _, _, _, _, _, _, _, d, _, b, _, _, _, w, _, s1, h1, p, _, s2, h2, b', _, rfl⟩ := h
+  obtain ⟨_, rfl⟩ := grantStep_shape h1
+  obtain ⟨_, _, rfl⟩ := bankSend_shape h2
+  exact ⟨rfl, rfl, rfl, rfl, rfl⟩
+
+theorem bookResolved_same {s s' : State} {u : Nat} (h : bookResolved s u = some s') : SameBets s s' := by
+  unfold bookResolved at h
+  simp only [bind, Option.bind_eq_some_iff, pure, Option.some.injEq] at h
+  obtain ⟨_, _, _, _, rfl⟩ := h
+  exact ⟨rfl, rfl, rfl, rfl, rfl⟩
+
+theorem settlePart_same {s : State} {b : Book} {p : Part} {m : Market} {r : State × Book}
+    (h : settlePart s b p m = some r) : SameBets s r.1 := by
+  unfold settlePart at h
+  simp only [bind, Option.bind_eq_some_iff] at h
+  obtain ⟨_, _, _, _, s1, h1, h⟩ := h
+  have e1 := bankSend_same h1
+  split at h
+  · simp only [Option.bind_eq_some_iff, pure, Option.some.injEq] at h
+    obtain ⟨s2, h2, rfl⟩ := h
+    exact e1.trans (bankSend_same h2)
+  · simp only [Option.bind_eq_some_iff, pure, Option.some.injEq] at h
+    obtain ⟨s2, h2, rfl⟩ := h
+    exact e1.trans (bankSend_same h2)
+
+theorem settleParts_same (m : Market) (count : Nat) : ∀ (ps : List Part) (s : State) (b : Book) (sc pr : Nat)
+    (r : State × Book × Nat × Nat), settleParts m count ps s b sc pr = some r → SameBets s r.1 := by
+  intro ps
+  induction ps with
+  | nil => intro s b sc pr r h; simp [settleParts] at h; rw [← h]; exact SameBets.refl s
+  | cons p rest ih =>
+    intro s b sc pr r h
+    unfold settleParts at h
+    simp only [bind, Option.bind_eq_some_iff] at h
+    obtain ⟨r1, h1, h⟩ := h
+    have e1 : SameBets s r1.1 := by
+      unfold settleOne at h1
+      split at h1
+      · simp only [Option.map_eq_some_iff] at h1
+        obtain ⟨x, hx, rfl⟩ := h1
+        exact settlePart_same hx
+      · cases h1; exact SameBets.refl s
+    split at h
+    · simp only [pure, Option.some.injEq] at h; rw [← h]; exact e1
+    · exact e1.trans (ih _ _ _ _ _ h)
+
+/-- the order-book end-blocker does not touch bets, indexes, counter or height -/
+theorem obEndBlock_same : ∀ (fuel : Nat) (s : State) (n i : Nat) (s' : State),
+    obEndBlock fuel s n i = some s' → SameBets s s' := by
+  intro fuel
+  induction fuel with
+  | zero => intro s n i s' h; simp [obEndBlock] at h; rw [← h]; exact SameBets.refl s
+  | succ fuel ih =>
+    intro s n i s' h
+    unfold obEndBlock at h
+    split at h
+    · simp at h; rw [← h]; exact SameBets.refl s
+    · split at h
+      · simp at h; rw [← h]; exact SameBets.refl s
+      · simp only [bind, Option.bind_eq_some_iff] at h
+        obtain ⟨b, _, m, _, _, _, r, hr, h⟩ := h
+        have e := settleParts_same _ _ _ _ _ _ _ _ hr
+        split at h
+        · simp only [Option.bind_eq_some_iff] at h
+          obtain ⟨q, _, h⟩ := h
+          refine e.trans (SameBets.trans ?_ (ih _ _ _ _ h))
+          exact ⟨rfl, rfl, rfl, rfl, rfl⟩
+        · refine e.trans (SameBets.trans ?_ (ih _ _ _ _ h))
+          exact ⟨rfl, rfl, rfl, rfl, rfl⟩
+
+-- ---------------------------------------------------------------------------------------------
+-- the bet end-blocker
+
+/-- `Settle` finds a stored unsettled bet (whatever uid / creator it is called with) and hands it, marked as
+    settled with a result, to `markSettled`; on the way only balances and the book change -/
+theorem settleBet_shape {s s' : State} {c u : Nat} (h : settleBet s c u = some s') :
+    ∃ (b0 : Bet) (s2 : State) (res : Nat), b0 ∈ s.bets ∧ b0.status ≠ BS_SETTLED ∧ SameBets s s2 ∧
+      s' = markSettled s2 { b0 with status := BS_SETTLED, result := res } := by
+  unfold settleBet at h
+  simp only [bind, Option.bind_eq_some_iff] at h
+  obtain ⟨bet0, _, bet, hb, _, hst, m, hm, h⟩ := h
+  have hst := chk_some hst
+  have hns : bet.status ≠ BS_SETTLED := by
+    intro e; simp [e] at hst
+  have hin : bet ∈ s.bets := by
+    unfold lookup at hb
+    exact List.mem_of_find?_eq_some hb
+  split at h
+  · unfold settleRefund at h
+    simp only [bind, Option.bind_eq_some_iff, pure, Option.some.injEq] at h
+    obtain ⟨s1, h1, s2, h2, rfl⟩ := h
+    exact ⟨bet, s2, BR_REFUNDED, hin, hns, (bankSend_same h1).trans (bankSend_same h2), rfl⟩
+  · simp only [Option.bind_eq_some_iff] at h
+    obtain ⟨_, _, h⟩ := h
+    unfold settleDeclared at h
+    simp only [bind, Option.bind_eq_some_iff, pure, Option.some.injEq] at h
+    obtain ⟨bk, _, r, hr, s2, h2, rfl⟩ := h
+    refine ⟨bet, s2, _, hin, hns, ?_, rfl⟩
+    refine SameBets.trans ?_ (bankSend_same h2)
+    exact ⟨rfl, rfl, rfl, rfl, rfl⟩
+
+theorem settleBet_good {s s' : State} {c u : Nat} (hI : BetIdx s) (h : settleBet s c u = some s') :
+    BetIdx s' ∧ Settles s s' := by
+  obtain ⟨b0, s2, res, hb0, hns, e, rfl⟩ := settleBet_shape h
+  have g := settle_good (s' := markSettled s2 { b0 with status := BS_SETTLED, result := res }) (hI.of_same e) b0
+    (by rw [e.1]; exact hb0) hns res rfl rfl rfl rfl rfl
+  exact ⟨g.1, (Settles.of_same e).trans g.2⟩
+
+theorem settlePage_good : ∀ (page : List (Nat × Nat × Nat × Nat)) (s : State) (r : State × Nat),
+    BetIdx s → settlePage s page = some r → BetIdx r.1 ∧ Settles s r.1 := by
+  intro page
+  induction page with
+  | nil => intro s r hI h; simp [settlePage] at h; rw [← h]; exact ⟨hI, Settles.refl s⟩
+  | cons pb rest ih =>
+    intro s r hI h
+    unfold settlePage at h
+    simp only [bind, Option.bind_eq_some_iff, pure, Option.some.injEq] at h
+    obtain ⟨s1, h1, r1, hr, rfl⟩ := h
+    have g1 := settleBet_good hI h1
+    have g2 := ih _ _ g1.1 hr
+    exact ⟨g2.1, g1.2.trans g2.2⟩
+
+theorem betEndBlockStep_good {s : State} {mk n : Nat} {r : State × Nat} (hI : BetIdx s)
+    (h : betEndBlockStep s mk n = some r) : BetIdx r.1 ∧ Settles s r.1 := by
+  unfold betEndBlockStep at h
+  simp only [bind, Option.bind_eq_some_iff] at h
+  obtain ⟨r0, h0, h⟩ := h
+  have g0 := settlePage_good _ _ _ hI h0
+  split at h
+  · simp only [pure, Option.some.injEq] at h; rw [← h]; exact g0
+  · simp only [Option.bind_eq_some_iff, pure, Option.some.injEq] at h
+    obtain ⟨q, _, s2, h2, rfl⟩ := h
+    have e : SameBets r0.1 s2 := by
+      refine SameBets.trans ?_ (bookResolved_same h2)
+      exact ⟨rfl, rfl, rfl, rfl, rfl⟩
+    exact ⟨g0.1.of_same e, g0.2.trans (Settles.of_same e)⟩
+
+theorem betEndBlock_good : ∀ (fuel : Nat) (s : State) (n : Nat) (s' : State),
+    BetIdx s → betEndBlock fuel s n = some s' → BetIdx s' ∧ Settles s s' := by
+  intro fuel
+  induction fuel with
+  | zero => intro s n s' hI h; simp [betEndBlock] at h; rw [← h]; exact ⟨hI, Settles.refl s⟩
+  | succ fuel ih =>
+    intro s n s' hI h
+    unfold betEndBlock at h
+    split at h
+    · simp at h; rw [← h]; exact ⟨hI, Settles.refl s⟩
+    · split at h
+      · simp at h; rw [← h]; exact ⟨hI, Settles.refl s⟩
+      · simp only [bind, Option.bind_eq_some_iff] at h
+        obtain ⟨r, hr, h⟩ := h
+        have g1 := betEndBlockStep_good hI hr
+        have g2 := ih _ _ _ g1.1 h
+        exact ⟨g2.1, g1.2.trans g2.2⟩
+
+theorem endBlockO_good {s s' : State} (hI : BetIdx s) (h : endBlockO s = some s') : BetIdx s' ∧ Settles s s' := by
+  unfold endBlockO at h
+  simp only [bind, Option.bind_eq_some_iff] at h
+  obtain ⟨s1, h1, h2⟩ := h
+  have g1 := betEndBlock_good _ _ _ _ hI h1
+  have e := obEndBlock_same _ _ _ _ _ h2
+  exact ⟨g1.1.of_same e, g1.2.trans (Settles.of_same e)⟩
+
+-- ---------------------------------------------------------------------------------------------
+-- the wager
+
+theorem wagerO_good {s s' : State} {c : Nat} {tk : Tk} {u : Nat} {a : Int} {pl : WagerPayload} (hI : BetIdx s)
+    (h : wagerO s c tk u a pl = some s') :
+    BetIdx s' ∧ ∃ nb : Bet, nb.status = BS_PLACED ∧ nb.id = s.betCount + 1 ∧ nb.uid = u ∧ nb.creator = c ∧
+      nb.market = pl.market ∧ ∀ z, z ∈ s'.bets ↔ z = nb ∨ z ∈ s.bets := by
+  unfold wagerO at h
+  simp only [bind, Option.bind_eq_some_iff, pure, Option.some.injEq] at h
+  obtain ⟨_, _, _, h2, _, _, _, _, _, _, _, _, _, _, m, _, _, _, _, _, _, _, _, _, _, _, _, _, ov, _, _, _, b, _, r, _, s1, hs1, s2, hs2, hfin⟩ := h
+  have h2 := chk_some h2
+  obtain ⟨_, _, rfl⟩ := bankSend_shape hs1
+  obtain ⟨_, _, rfl⟩ := bankSend_shape hs2
+  have hu : ∀ b ∈ s.bets, b.uid ≠ (newBet s c u pl ov r.2.1).uid := by
+    intro b hb hu
+    simp only [Bool.not_eq_true', List.any_eq_false, beq_iff_eq] at h2
+    exact h2 b hb hu
+  have hne : (newBet s c u pl ov r.2.1).status ≠ BS_SETTLED := by
+    show BS_PLACED ≠ BS_SETTLED
+    decide
+  have W := wager_good (s' := s') hI (newBet s c u pl ov r.2.1) rfl hne hu (by subst hfin; rfl) (by subst hfin; rfl)
+    (by subst hfin; rfl) (by subst hfin; rfl)
+  exact ⟨W.1, newBet s c u pl ov r.2.1, rfl, rfl, rfl, rfl, rfl, W.2⟩
+
+-- ---------------------------------------------------------------------------------------------
+-- every operation, every history
+
+/-- how one operation may change the bet records: a settled record stays as it is; a settled record of the new
+    state is an old record, or — only in an end-block — an unsettled old record settled at the block's height -/
+def StepRel (s : State) (op : Op) (s' : State) : Prop :=
+  (∀ b ∈ s.bets, b.status = BS_SETTLED → b ∈ s'.bets) ∧
+  (∀ b' ∈ s'.bets, b'.status = BS_SETTLED → b' ∈ s.bets ∨ (op = .endBlock ∧ ∃ b0 ∈ s.bets, b0.status ≠ BS_SETTLED ∧
+    ∃ res, b' = { b0 with status := BS_SETTLED, result := res, settleHeight := s.height }))
+
+theorem StepRel.of_eq {s s' : State} {op : Op} (e : s'.bets = s.bets) : StepRel s op s' :=
+  ⟨fun b hb _ => by rw [e]; exact hb, fun b hb _ => Or.inl (by rw [← e]; exact hb)⟩
+
+theorem commit_good {s : State} {r : Option State} (op : Op) (hI : BetIdx s) (h : ∀ s', r = some s' → SameBets s s') :
+    BetIdx (commit s r).1 ∧ StepRel s op (commit s r).1 := by
+  unfold commit
+  cases r with
+  | none => exact ⟨hI, StepRel.of_eq rfl⟩
+  | some s' => exact ⟨hI.of_same (h s' rfl), StepRel.of_eq (h s' rfl).1⟩
+
+theorem step_good (s : State) (op : Op) (hI : BetIdx s) : BetIdx (step s op).1 ∧ StepRel s op (step s op).1 := by
+  cases op with
+  | marketAdd c tk u st en o stt => exact commit_good _ hI (fun _ h => marketAddO_same h)
+  | marketUpdate tk u st en stt => exact commit_good _ hI (fun _ h => marketUpdateO_same h)
+  | marketResolve tk u ts stt w => exact commit_good _ hI (fun _ h => marketResolveO_same h)
+  | deposit c tk m a pd =>
+    simp only [step, houseDeposit]
+    cases h : houseDepositO s c tk m a pd with
+    | none => exact ⟨hI, StepRel.of_eq rfl⟩
+    | some r => exact ⟨hI.of_same (houseDepositO_same h), StepRel.of_eq (houseDepositO_same h).1⟩
+  | withdraw c tk m i md a pd => exact commit_good _ hI (fun _ h => houseWithdrawO_same h)
+  | wager c tk u a pl =>
+    simp only [step, wager, commit]
+    cases h : wagerO s c tk u a pl with
+    | none => exact ⟨hI, StepRel.of_eq rfl⟩
+    | some s' =>
+      obtain ⟨hI', nb, hst, _, _, _, _, hmem⟩ := wagerO_good hI h
+      refine ⟨hI', fun b hb _ => (hmem b).mpr (Or.inr hb), fun b' hb' hs => ?_⟩
+      rcases (hmem b').mp hb' with e | hin
+      · rw [e, hst] at hs; cases hs
+      · exact Or.inl hin
+  | grant g e k l x => exact ⟨hI.of_eq rfl rfl rfl rfl, StepRel.of_eq rfl⟩
+  | revoke g e k => exact ⟨hI.of_eq rfl rfl rfl rfl, StepRel.of_eq rfl⟩
+  | send a b x =>
+    simp only [step]
+    split
+    · exact ⟨hI, StepRel.of_eq rfl⟩
+    · exact commit_good _ hI (fun _ h => bankSend_same h)
+  | setParams p =>
+    simp only [step]
+    split
+    · exact ⟨hI.of_eq rfl rfl rfl rfl, StepRel.of_eq rfl⟩
+    · exact ⟨hI, StepRel.of_eq rfl⟩
+  | endBlock =>
+    simp only [step, endBlock]
+    cases h : endBlockO s with
+    | none => exact ⟨hI, StepRel.of_eq rfl⟩
+    | some s' =>
+      obtain ⟨hI', g⟩ := endBlockO_good hI h
+      refine ⟨hI', g.keeps, fun b' hb' _ => ?_⟩
+      rcases g.origin b' hb' with hin | hx
+      · exact Or.inl hin
+      · exact Or.inr ⟨rfl, hx⟩
+  | newBlock h t => exact ⟨hI.of_eq rfl rfl rfl rfl, StepRel.of_eq rfl⟩
+
+theorem betIdx_init (p : Params) (bal : List (Nat × Int)) (h t : Nat) :
+    BetIdx { bal := bal, params := p, height := h, time := t } := by
+  refine ⟨rfl, ?_, ?_, ?_, ?_, ?_, ?_, ?_, ?_, ?_, ?_, ?_, rfl⟩
+  · intro b hb; cases hb
+  · intro k h1 h2
+    have : k ≤ 0 := h2
+    omega
+  · intro b hb; cases hb
+  · intro b hb; cases hb
+  · exact List.Pairwise.nil
+  · exact List.Pairwise.nil
+  · exact List.Pairwise.nil
+  · intro b hb; cases hb
+  · intro b hb; cases hb
+  · intro b hb; cases hb
+  · intro b hb; cases hb
+
+theorem step_betIdx (s : State) (op : Op) (hI : BetIdx s) : BetIdx (step s op).1 := (step_good s op hI).1
+
+theorem run_cons (s : State) (op : Op) (ops : List Op) : run s (op :: ops) = run (step s op).1 ops := rfl
+
+theorem run_append (s : State) (ops1 ops2 : List Op) : run s (ops1 ++ ops2) = run (run s ops1) ops2 := by
+  unfold run
+  rw [List.foldl_append]
+
+theorem run_betIdx (s : State) (ops : List Op) (hI : BetIdx s) : BetIdx (run s ops) := by
+  induction ops generalizing s with
+  | nil => exact hI
+  | cons op rest ih => exact ih _ (step_betIdx s op hI)
+
+/-- a settled bet record is in every later state, unchanged -/
+theorem run_keeps (s : State) (ops : List Op) (hI : BetIdx s) (b : Bet) (hb : b ∈ s.bets) (hst : b.status = BS_SETTLED) :
+    b ∈ (run s ops).bets := by
+  induction ops generalizing s with
+  | nil => exact hb
+  | cons op rest ih =>
+    have g := step_good s op hI
+    exact ih _ g.1 (g.2.1 b hb hst)
+
 end Sge.Core
